@@ -18,6 +18,7 @@ import (
 	"verif/internal/cmpx"
 	"verif/internal/gx"
 	"verif/internal/ref"
+	"verif/internal/vet"
 	"verif/internal/vrt"
 )
 
@@ -26,9 +27,12 @@ var suite = vrt.NewSuite("C03", "(input, chunking, mode): inputs are grammar-gen
 type Case struct {
 	Input []byte      `json:"input"`
 	Chunk gx.Chunking `json:"chunk"`
-	Mode  string      `json:"mode"` // single | cb | cbbool | chan
-	Lang  string      `json:"lang"` // json | sen
+	Mode  string      `json:"mode"`           // single | cb | cbbool | chan
+	Lang  string      `json:"lang"`           // json | sen
 	Enum  bool        `json:"enum,omitempty"` // from the small-scope enumeration (not counted for the generator floors)
+	// Veteran: the parsers and tokenizers are instances with a history of earlier calls
+	// (internal/vet) instead of fresh ones
+	Veteran bool `json:"veteran,omitempty"`
 }
 
 func TestMain(m *testing.M) {
@@ -131,7 +135,10 @@ func single(v any, err error) outcome {
 
 func ojParse(reader bool) func(cs Case) outcome {
 	return func(cs Case) outcome {
-		p := oj.Parser{}
+		p := &oj.Parser{}
+		if cs.Veteran {
+			p = vet.OjParser()
+		}
 		args, get := collect(cs.Mode)
 		var v any
 		var err error
@@ -150,7 +157,10 @@ func ojParse(reader bool) func(cs Case) outcome {
 
 func senParse(reader bool) func(cs Case) outcome {
 	return func(cs Case) outcome {
-		p := sen.Parser{}
+		p := &sen.Parser{}
+		if cs.Veteran {
+			p = vet.SenParser()
+		}
 		args, get := collect(cs.Mode)
 		var v any
 		var err error
@@ -169,7 +179,10 @@ func senParse(reader bool) func(cs Case) outcome {
 
 func genParse(reader bool) func(cs Case) outcome {
 	return func(cs Case) outcome {
-		p := gen.Parser{}
+		p := &gen.Parser{}
+		if cs.Veteran {
+			p = vet.GenParser()
+		}
 		args, get := collectGen(cs.Mode)
 		var v gen.Node
 		var err error
@@ -242,7 +255,10 @@ func tokenize(kind string, reader bool) func(cs Case) outcome {
 		var err error
 		one := cs.Mode == "single"
 		if kind == "oj" {
-			t := oj.Tokenizer{}
+			t := &oj.Tokenizer{}
+			if cs.Veteran {
+				t = vet.OjTokenizer()
+			}
 			t.OnlyOne = one
 			if reader {
 				err = t.Load(cs.Chunk.Reader(cs.Input), h)
@@ -250,7 +266,10 @@ func tokenize(kind string, reader bool) func(cs Case) outcome {
 				err = t.Parse(cs.Input, h)
 			}
 		} else {
-			t := sen.Tokenizer{}
+			t := &sen.Tokenizer{}
+			if cs.Veteran {
+				t = vet.SenTokenizer()
+			}
 			t.OnlyOne = one
 			if reader {
 				err = t.Load(cs.Chunk.Reader(cs.Input), h)
@@ -360,6 +379,9 @@ func Run(cs Case, c *vrt.Ctx) {
 	}
 	c.Class("lang:" + cs.Lang)
 	c.Class("mode:" + cs.Mode)
+	if cs.Veteran {
+		c.Class("veteran-instances")
+	}
 	classifySplits(cs, c)
 	body, bom := ref.StripBOM(cs.Input)
 	if bom {
@@ -695,6 +717,7 @@ func drawCase(t *rapid.T) Case {
 		}
 	}
 	cs.Chunk = gx.DrawChunking(t, len(cs.Input), cuts)
+	cs.Veteran = rapid.IntRange(0, 3).Draw(t, "veteran") == 0
 	return cs
 }
 
